@@ -9,7 +9,7 @@ from . import engine as E
 from . import exact as X
 from . import gen as G
 from . import refparse as RP
-from .runner import hyp_run
+from .runner import guarded, hyp_run
 
 PROP = "C05"
 LEVEL = "exploration"
@@ -462,5 +462,5 @@ def run(ctx):
             continue
         ctx.count("evaluations")
         ctx.count("sweep:cases")
-        check_eval(ctx, {"text": t, "ctx": BIG_ENV, "build": "parser", "child_on_left": False, "abs": False, "pre": [], "all_rewrites": True})
+        guarded(ctx, check_eval, {"text": t, "ctx": BIG_ENV, "build": "parser", "child_on_left": False, "abs": False, "pre": [], "all_rewrites": True})
     hyp_run(ctx, "evaluations", eval_case(), check_eval, ctx.n(8000, 60000))
